@@ -3,8 +3,15 @@
 // relative to the root's first byte) and values read.  No expected values in here.
 //
 // input: J <id> <view program> <cast> <npost> { <op> <nargs> <args..> }
+#ifdef VERIF_REC3
+struct S { short a; short b; short c; };   // 6 bytes: reinterpreted as pairs of shorts (4 bytes), sizes that are not multiples of each other
+inline bool operator==(S const& x, S const& y) { return x.a == y.a && x.b == y.b && x.c == y.c; }
+#else
 struct S { short a; short b; };
 inline bool operator==(S const& x, S const& y) { return x.a == y.a && x.b == y.b; }
+#endif
+struct P2 { short x; short y; };
+inline bool operator==(P2 const& p, P2 const& q) { return p.x == q.x && p.y == q.y; }
 #define VERIF_ELEM S
 #include "viewprog.hpp"
 
@@ -15,6 +22,7 @@ static char const* g_bytes = nullptr;
 template<class E> long unit_of(E const& e) { return static_cast<long>((reinterpret_cast<char const*>(&e) - g_bytes) / 2); }
 template<class E> long value_of(E const& e) {
 	if constexpr(std::is_same_v<std::decay_t<E>, S>) { return e.a; }
+	else if constexpr(std::is_same_v<std::decay_t<E>, P2>) { return static_cast<long>(e.x) + 65536L * static_cast<long>(e.y); }
 	else { return static_cast<long>(e); }
 }
 
@@ -80,18 +88,35 @@ template<class V> void dump_values(V const& v, std::ostream& os, bool has_units)
 template<int RD, int D> void do_cast(multi::array<S, RD>& root, view_t<D>& v, std::string const& cast, std::vector<op_t> const& post, std::ostream& os) {
 	if(cast == "member_a") { post_ops(v.template member_cast<short>(&S::a), post, 0, [&](auto&& w) { dump(w, os); }); }
 	else if(cast == "member_b") { post_ops(v.template member_cast<short>(&S::b), post, 0, [&](auto&& w) { dump(w, os); }); }
+#ifndef VERIF_REC3
 	else if(cast == "reint_int") { post_ops(v.template reinterpret_array_cast<std::int32_t>(), post, 0, [&](auto&& w) { dump(w, os); }); }
+#endif
+#ifndef VERIF_REC3
 	else if(cast == "reint_short2") { post_ops(v.template reinterpret_array_cast<short>(2), post, 0, [&](auto&& w) { dump(w, os); }); }
+#endif
 	// the same casts reached through a const view (the read-only overloads)
 	else if(cast == "member_a_const") { auto const& cv = v; post_ops(cv.template member_cast<short>(&S::a), post, 0, [&](auto&& w) { dump(w, os); }); }
+#ifndef VERIF_REC3
 	else if(cast == "reint_int_const") { auto const& cv = v; post_ops(cv.template reinterpret_array_cast<std::int32_t>(), post, 0, [&](auto&& w) { dump(w, os); }); }
+#endif
+#ifndef VERIF_REC3
 	else if(cast == "reint_short2_const") { auto const& cv = v; post_ops(cv.template reinterpret_array_cast<short>(2), post, 0, [&](auto&& w) { dump(w, os); }); }
+#endif
 	else if(cast == "member_b_const") { auto const& cv = v; post_ops(cv.template member_cast<short>(&S::b), post, 0, [&](auto&& w) { dump(w, os); }); }
 	// ... and through a temporary view (the && overloads)
 	else if(cast == "member_a_rv") { post_ops(std::move(v).template member_cast<short>(&S::a), post, 0, [&](auto&& w) { dump(w, os); }); }
 	else if(cast == "member_b_rv") { post_ops(v().template member_cast<short>(&S::b), post, 0, [&](auto&& w) { dump(w, os); }); }
+#ifndef VERIF_REC3
 	else if(cast == "reint_int_rv") { post_ops(std::move(v).template reinterpret_array_cast<std::int32_t>(), post, 0, [&](auto&& w) { dump(w, os); }); }
+#endif
+#ifndef VERIF_REC3
 	else if(cast == "reint_short2_rv") { post_ops(std::move(v).template reinterpret_array_cast<short>(2), post, 0, [&](auto&& w) { dump(w, os); }); }
+#endif
+#ifdef VERIF_REC3
+	else if(cast == "reint_pair") { post_ops(v.template reinterpret_array_cast<P2>(), post, 0, [&](auto&& w) { dump(w, os); }); }
+	else if(cast == "reint_pair_const") { auto const& cv = v; post_ops(cv.template reinterpret_array_cast<P2>(), post, 0, [&](auto&& w) { dump(w, os); }); }
+	else if(cast == "reint_pair_rv") { post_ops(std::move(v).template reinterpret_array_cast<P2>(), post, 0, [&](auto&& w) { dump(w, os); }); }
+#endif
 	else if(cast == "static_const") { post_ops(v.template static_array_cast<S const>(), post, 0, [&](auto&& w) { dump(w, os); }); }
 	else if(cast == "const_cast") {
 		if constexpr(D >= 2) { auto const& cv = v; post_ops(cv.template const_array_cast<S>(), post, 0, [&](auto&& w) { dump(w, os); }); }
@@ -136,7 +161,11 @@ template<int RD, int D> void do_cast(multi::array<S, RD>& root, view_t<D>& v, st
 
 template<int D> void run_case(long id, view_program const& p, std::string const& cast, std::vector<op_t> const& post) {
 	multi::array<S, D> root(make_ext<D>(p.sizes, p.firsts, std::make_index_sequence<D>{}));
-	{ short c = 0; for(auto& e : root.elements()) { e.a = static_cast<short>(100 + c); e.b = static_cast<short>(200 + c); ++c; } }
+	{ short c = 0; for(auto& e : root.elements()) { e.a = static_cast<short>(100 + c); e.b = static_cast<short>(200 + c);
+#ifdef VERIF_REC3
+		e.c = static_cast<short>(300 + c);
+#endif
+		++c; } }
 	g_root = root.data_elements();
 	g_bytes = reinterpret_cast<char const*>(root.data_elements());
 	any_view cur;
